@@ -2,6 +2,7 @@ package schedh
 
 import (
 	"fmt"
+	"strings"
 
 	datatransfer "github.com/filecoin-project/go-data-transfer/v2"
 
@@ -157,5 +158,105 @@ func init() {
 			c07Concurrent(x, dir, [][]int{{1, 2, 3}, {3, 2, 1}}, 3)
 			c07Concurrent(x, dir, [][]int{{1}, {2}, {3}}, 3)
 		})
+	}
+}
+
+// c07ConcurrentAfterReopen: positions 1..2 are reported and persisted, the datastore is reopened (fresh caches,
+// as after a process restart or a migration), then two reporters replay positions concurrently - the first
+// touch of the index cache races with itself. Nothing may be counted again, whatever the interleaving.
+func c07ConcurrentAfterReopen(x *mc.Cell, dir string, bound int) {
+	name := fmt.Sprintf("c07-concurrent-after-reopen-%s", dir)
+	filter := func(kind string, obj any) bool {
+		if kind == "atomic" {
+			return true
+		}
+		if kind == "stmt" {
+			s, _ := obj.(string)
+			return strings.HasPrefix(s, "channels/caches.go") || strings.HasPrefix(s, "ds:")
+		}
+		return false
+	}
+	progCode := map[string]datatransfer.EventCode{"received": datatransfer.DataReceivedProgress, "queued": datatransfer.DataQueuedProgress, "sent": datatransfer.DataSentProgress}[dir]
+	x.Enumerate(name, mc.EnumOpts{MaxDeviations: bound, DeviationCost: sched.Cost, MaxExecutions: 6000}, func(c *mc.Chooser) mc.Exec {
+		var ex mc.Exec
+		pv, stack := mc.Bubble(x.T, func() {
+			sys, err := l1chan.NewSys(nil)
+			if err != nil {
+				panic(err)
+			}
+			role := l1chan.InitPull
+			if dir != "received" {
+				role = l1chan.InitPush
+			}
+			chid, _ := sys.Create(role, 1, doubles.Voucher("T", "v"))
+			_ = sys.Ch.Accept(chid)
+			_ = sys.Ch.TransferInitiated(chid)
+			report := func(s *l1chan.Sys, pos int) {
+				size := uint64(1) << uint(pos-1)
+				switch dir {
+				case "received":
+					_ = s.Ch.DataReceived(chid, doubles.Cid("b"), size, int64(pos), true)
+				case "queued":
+					_ = s.Ch.DataQueued(chid, doubles.Cid("b"), size, int64(pos), true)
+				default:
+					_ = s.Ch.DataSent(chid, doubles.Cid("b"), size, int64(pos), true)
+				}
+			}
+			report(sys, 1)
+			mc.Wait()
+			report(sys, 2)
+			mc.Wait()
+			before, _ := sys.Vec(chid)
+			img := sys.DS.Image()
+			sys.Stop()
+			sys2, err := l1chan.NewSys(doubles.NewRecDSFrom(img))
+			if err != nil {
+				panic(err)
+			}
+			defer sys2.Stop()
+			mc.Wait()
+			s := sched.New(filter)
+			s.Go("replayer0", func() { report(sys2, 2) })
+			s.Go("replayer1", func() { report(sys2, 1); report(sys2, 2) })
+			stuck, capped := s.Run(c, 5000, 0, 0)
+			s.Close()
+			mc.Wait()
+			rep := mc.EnumReplay(name, c)
+			if capped {
+				x.Cap(name + ": step cap")
+			}
+			if len(stuck) > 0 {
+				x.Violate("C20", "caches;threads-stuck;after-reopen", fmt.Sprintf("threads %v never finished; schedule %v", stuck, s.Trace), rep)
+				return
+			}
+			after, err := sys2.Vec(chid)
+			if err != nil {
+				panic(err)
+			}
+			progress := 0
+			for _, e := range sys2.EventsFrom(0) {
+				if e.Code == progCode {
+					progress++
+				}
+			}
+			ex.Premise = true
+			ex.Outcome = fmt.Sprintf("progress=%d", progress)
+			if progress != 0 || after.String() != before.String() {
+				x.Violate("C07", fmt.Sprintf("concurrent;replay-after-reopen-counted;dir=%s;progress-events=%d", dir, progress),
+					fmt.Sprintf("positions already persisted were replayed concurrently after a reopen:\n before: %s\n after:  %s\n schedule %v", before, after, s.Trace), rep)
+			}
+		})
+		if pv != nil {
+			x.Violate("C07", "panic;concurrent-after-reopen", fmt.Sprintf("%v\n%s", pv, stack), mc.EnumReplay(name, c))
+		}
+		return ex
+	})
+}
+
+func init() {
+	for _, dir := range []string{"received", "queued", "sent"} {
+		dir := dir
+		mc.Register("C07", "concurrent-replay-after-reopen/"+dir, "quick", func(x *mc.Cell) { c07ConcurrentAfterReopen(x, dir, 1) })
+		mc.Register("C07", "concurrent-replay-after-reopen/"+dir, "thorough", func(x *mc.Cell) { c07ConcurrentAfterReopen(x, dir, 2) })
 	}
 }
